@@ -68,6 +68,10 @@ func runC17(r *Report) {
 			continue
 		}
 		pt, ok := switchPartition(pk.TypesInfo, fd)
+		if !ok {
+			// the same classification written as an if / else-if chain
+			pt, ok = ssaTypePartition(p.Fn(n))
+		}
 		r.Anchor("R17a", n+": switch on the message type", ok)
 		parts[n] = pt
 	}
@@ -420,4 +424,81 @@ func payloadSetRule(r *Report) {
 		}
 		r.Ob("R17d", fn, "appends-to-the-callers-buffer", fn.Pos(), ok, "CacheMarshal writes behind the content of the buffer it is given and allocates only for a nil buffer; "+why)
 	}
+}
+
+// ssaTypePartition derives the classification of message types from the comparisons `m.typ == K`
+// of a function: constants whose true edge leads to the same block form one class; the path on
+// which every comparison fails is the default class when it does some work.
+func ssaTypePartition(fn *ssa.Function) ([]string, bool) {
+	if fn == nil {
+		return nil, false
+	}
+	follow := func(b *ssa.BasicBlock) *ssa.BasicBlock {
+		for k := 0; k < 4 && len(b.Instrs) == 1 && len(b.Succs) == 1; k++ {
+			if _, isj := b.Instrs[0].(*ssa.Jump); !isj {
+				break
+			}
+			b = b.Succs[0]
+		}
+		return b
+	}
+	classes := map[*ssa.BasicBlock][]string{}
+	cmpBlocks := map[*ssa.BasicBlock]bool{}
+	var last *ssa.BasicBlock
+	n := 0
+	for _, b := range fn.Blocks {
+		iff, ok := b.Instrs[len(b.Instrs)-1].(*ssa.If)
+		if !ok {
+			continue
+		}
+		bo, ok := iff.Cond.(*ssa.BinOp)
+		if !ok || bo.Op != token.EQL || !IsFieldLoad(bo.X, "rueidis.RedisMessage", "typ") {
+			continue
+		}
+		k, isc := ConstInt(bo.Y)
+		if !isc {
+			continue
+		}
+		n++
+		cmpBlocks[b] = true
+		t := follow(b.Succs[0])
+		classes[t] = append(classes[t], fmt.Sprintf("%q", rune(k)))
+	}
+	if n < 3 {
+		return nil, false
+	}
+	for b := range cmpBlocks {
+		f := follow(b.Succs[1])
+		if !cmpBlocks[f] && classes[f] == nil {
+			last = f
+		}
+	}
+	var out []string
+	for _, vals := range classes {
+		sort.Strings(vals)
+		out = append(out, strings.Join(vals, ","))
+	}
+	if last != nil {
+		work := false
+		for _, in := range last.Instrs {
+			switch in.(type) {
+			case *ssa.Jump, *ssa.Phi:
+			case *ssa.Return:
+				if r := in.(*ssa.Return); len(r.Results) > 0 {
+					if _, isphi := r.Results[0].(*ssa.Phi); !isphi {
+						if _, isc := r.Results[0].(*ssa.Const); !isc {
+							work = true
+						}
+					}
+				}
+			default:
+				work = true
+			}
+		}
+		if work {
+			out = append(out, "default")
+		}
+	}
+	sort.Strings(out)
+	return out, true
 }
